@@ -7765,11 +7765,16 @@ let sxfm_sat _UU03c3_ d =
   (&&) (sx_sem _UU03c3_ d.sp_root)
     (forallb (clause_true _UU03c3_) d.sp_clauses)
 
+(** val sx_safename : char list -> char list **)
+
+let sx_safename s =
+  if eqb0 s ('o'::('r'::[])) then quote s else w_safename s
+
 (** val sx_label : char list -> char list **)
 
 let sx_label n0 =
-  append (w_safename n0)
-    (append (' '::('('::[])) (append (w_safename n0) (')'::[])))
+  append (sx_safename n0)
+    (append (' '::('('::[])) (append (sx_safename n0) (')'::[])))
 
 (** val card_star : z -> char list **)
 
@@ -7823,11 +7828,11 @@ let render_splot d =
                        (str_join (' '::('o'::('r'::(' '::[]))))
                          (map (fun l ->
                            if fst l
-                           then append ('~'::[]) (w_safename (snd l))
-                           else w_safename (snd l)) cl)))))) :: (go
-                                                                  (Z.add i
+                           then append ('~'::[]) (sx_safename (snd l))
+                           else sx_safename (snd l)) cl)))))) :: (go
+                                                                   (Z.add i
                                                                     (Zpos XH))
-                                                                  rest)
+                                                                   rest)
              in go (Zpos XH) d.sp_clauses)
             (('<'::('/'::('c'::('o'::('n'::('s'::('t'::('r'::('a'::('i'::('n'::('t'::('s'::('>'::[])))))))))))))) :: (('<'::('/'::('f'::('e'::('a'::('t'::('u'::('r'::('e'::('_'::('m'::('o'::('d'::('e'::('l'::('>'::[])))))))))))))))) :: []))))))
 
